@@ -224,7 +224,8 @@ func renderPreformatted(w io.Writer, node *html.Node) {
 func renderNodeWithContext(ctx VueContext, w io.Writer, node *html.Node, indent int) error {
 	switch node.Type {
 	case html.TextNode:
-		if strings.TrimSpace(node.Data) == "" {
+		// whitespace-only text is layout; a no-break space (or any other Unicode space) is content
+		if strings.Trim(node.Data, " \t\n\r\f") == "" {
 			return nil
 		}
 		spaces := getIndent(indent)
